@@ -370,6 +370,16 @@ Fixpoint spec_stop_from (stopped : bool) (acts : list act) (observed : list dobs
   | _, _ => true
   end.
 
+(* reason 8: the run loop ends only by Stop or by a failure of the shared transport's Read (theorem C18_run_alive):
+   at every quiescent point before the first Stop / read failure the Run goroutine is alive *)
+Fixpoint spec_alive_from (may_end : bool) (acts : list act) (observed : list dobs) : bool :=
+  match acts, observed with
+  | a :: acts', o :: obs' =>
+      let me := may_end || match a with AStop | AFailRead => true | _ => false end in
+      (me || o_run o) && spec_alive_from me acts' obs'
+  | _, _ => true
+  end.
+
 Definition check (c : c18case) : list nat :=
   match c with
   | CDemux acts observed =>
@@ -379,6 +389,7 @@ Definition check (c : c18case) : list nat :=
       ++ (if spec_write acts observed then [] else [4%nat])
       ++ (if spec_cancel acts observed then [] else [5%nat])
       ++ (if spec_stop_from false acts observed then [] else [6%nat])
+      ++ (if spec_alive_from false acts observed then [] else [8%nat])
   | CDemuxE2E results =>
       if forallb (fun p => fst p =? snd p) results then [] else [7%nat]
   end.
